@@ -400,9 +400,10 @@ impl<'a> crate::fdl::FdlApplication for DpMaster<'a> {
                 };
             }
             _ => {
-                unreachable!(
-                    "Received reply for unknown/unexpected peripheral #{addr}: {telegram:?}"
-                );
+                // The peripheral this reply was meant for is gone: it was reset to a different
+                // address (`reset_address()`) while the reply was pending.
+                log::warn!("Ignoring reply from #{addr} which is no longer expected: {telegram:?}");
+                self.state.last_events = Default::default();
             }
         }
     }
